@@ -346,7 +346,7 @@ Definition step (s : st) (l : label) : st :=
            then set_woken (set_sigq s (sigq s ++ [sg])) true else s
   | Tick dt => if 0 <=? dt then advance s dt else s
   | Notify p => notify s p
-  | EditCfg w t => set_disk s w t
+  | EditCfg w t => if (0 <=? w) && (0 <=? t) then set_disk s w t else s   (* the validators refuse negative values *)
   | ParentDies => set_orphan s true
   end.
 
@@ -396,3 +396,26 @@ Fixpoint run_obs_from (s : st) (nsent : nat) (ls : list label) : list Z :=
       else run_obs_from s' nsent t
   end.
 Definition run_obs (s : st) (ls : list label) : list Z := run_obs_from s 0 ls.
+
+(* ---- the canonical fair environment (mirrors lib_arbiter.make_settle) ---------------------------- *)
+(* "once events stop": nothing happens any more except what fairness demands - workers that were told
+   to stop do exit and SIGCHLD is delivered (at the top of the main loop, and in the naps of stop()),
+   healthy workers keep proving liveness (before every select()). *)
+Definition fatal (sg : Z) : bool := (sg =? SIGTERM) || (sg =? SIGQUIT) || (sg =? SIGABRT) || (sg =? SIGINT).
+Definition told (c : child) : bool := is_running c && existsb fatal (c_sigs c).
+Definition exit_point (p : pc) : bool := match p with PSigq | PStopNap _ _ => true | _ => false end.
+Definition notify_point (p : pc) : bool := match p with PSelect => true | _ => false end.
+Definition fair_env (s : st) : list label :=
+  if exit_point (cur s) then
+    map (fun c => Exit (c_pid c) 0) (filter told (kids s)) ++
+    (if existsb told (kids s) || existsb is_zombie (kids s) then [Chld] else [])
+  else if notify_point (cur s) then
+    map (fun c => Notify (c_pid c)) (filter (fun c => is_running c && negb (c_master c)) (kids s))
+  else [].
+Definition settle_step (s : st) : st := master (run s (fair_env s)).
+Fixpoint settle (n : nat) (s : st) : st :=
+  match n with O => s | S k => settle k (settle_step s) end.
+Fixpoint settle_labels (n : nat) (s : st) : list label :=
+  match n with O => [] | S k => fair_env s ++ Master :: settle_labels k (settle_step s) end.
+(* a scripted schedule followed by n steps of the fair environment *)
+Definition with_tail (s : st) (ls : list label) (n : nat) : list label := ls ++ settle_labels n (run s ls).
